@@ -72,6 +72,12 @@ pub const POOL: &[QueryShape] = &[
     QueryShape { text: "(integer) @int", caps: &[c("int", "", &["integer"])], root_kinds: &["integer"], total: true, exec_safe: true },
     QueryShape { text: "(comparison_operator (_) @first_operand)", caps: &[c("first_operand", "", &[])], root_kinds: &["comparison_operator"], total: false, exec_safe: true },
     QueryShape { text: "(tuple (_)* @items) @tup", caps: &[c("items", "*", &[]), c("tup", "", &["tuple"])], root_kinds: &["tuple"], total: false, exec_safe: true },
+    QueryShape { text: "(parameters (identifier)? @name)", caps: &[c("name", "?", &["identifier"])], root_kinds: &["parameters"], total: false, exec_safe: true },
+    QueryShape { text: "(list (_)* @first)", caps: &[c("first", "*", &[])], root_kinds: &["list"], total: false, exec_safe: true },
+    QueryShape { text: "(tuple (_)+ @id)", caps: &[c("id", "+", &[])], root_kinds: &["tuple"], total: false, exec_safe: true },
+    QueryShape { text: "(return_statement (identifier)? @id)", caps: &[c("id", "?", &["identifier"])], root_kinds: &["return_statement"], total: false, exec_safe: true },
+    QueryShape { text: "(call function: (identifier) @args)", caps: &[c("args", "", &["identifier"])], root_kinds: &["call"], total: false, exec_safe: true },
+    QueryShape { text: "(class_definition body: (block (_)* @body))", caps: &[c("body", "*", &[])], root_kinds: &["class_definition"], total: false, exec_safe: true },
 ];
 
 pub fn quant_of(s: &str) -> crate::gen::ast::Quant {
